@@ -411,7 +411,6 @@ package rag
 //@   ensures count: len(res.Chunks) == predCount(cc.Chunks, len(cc.Chunks))
 //@   ensures exact_in_order: forall j int :: {cc.Chunks[j]} 0 <= j && j < len(cc.Chunks) && fv_predicate(cc.Chunks[j]) ==> res.Chunks[predCount(cc.Chunks, j)] == cc.Chunks[j]
 
-
 // ---- C12 (layout-based chunker): every chunk reports the final number of chunks; constructors stamp the index ----
 //@ func (*Chunker) createChunk results (ch)
 //@   property C12
